@@ -103,12 +103,15 @@ def pretty_tzinfo(value, ctx):
 
 @register_pretty(timezone)
 def pretty_timezone(tz, ctx):
-    if tz == timezone.utc:
+    # (offset, ) or (offset, name): the arguments the timezone was
+    # constructed with. The private attributes are not available
+    # on the C implementation of the datetime module.
+    initargs = tz.__getinitargs__()
+
+    if tz == timezone.utc and len(initargs) == 1:
         return identifier('datetime.timezone.utc')
 
-    if tz._name is None:
-        return pretty_call_alt(ctx, timezone, args=(tz._offset, ))
-    return pretty_call_alt(ctx, timezone, args=(tz._offset, tz._name))
+    return pretty_call_alt(ctx, timezone, args=initargs)
 
 
 def pretty_pytz_timezone(tz, ctx):
@@ -306,7 +309,12 @@ def pretty_counter(counter, ctx):
 @register_pretty('enum.Enum')
 def pretty_enum(value, ctx):
     cls = type(value)
-    return classattr(cls, value.name)
+    name = value.name
+    if name is None or '|' in name:
+        # A Flag member that is a combination of members (or none
+        # of them) has no attribute name of its own.
+        return pretty_call_alt(ctx, cls, args=(value.value, ))
+    return classattr(cls, name)
 
 
 @register_pretty('builtins.mappingproxy')
